@@ -278,6 +278,14 @@ class Engine:
         return outs
 
     def e_Constant(s, e, st, ctx): return [(st, e.value)]
+    def e_Await(s, e, st, ctx):
+        # sequential reading of a coroutine: `await x` evaluates x; what other tasks may do at the suspension point is the sidecar's rely condition
+        hook = getattr(s, "await_hook", None)
+        outs = []
+        for st1, v in s.eval(e.value, st, ctx):
+            if hook is not None and not isinstance(v, Raised): hook(st1, ctx, e)
+            outs.append((st1, v))
+        return outs
     def e_Name(s, e, st, ctx):
         if e.id in st.locals: return [(st, st.locals[e.id])]
         for q in (f"{ctx.cls}.{e.id}" if ctx.cls else None, f"{ctx.module}.{e.id}"):
@@ -699,6 +707,8 @@ class Engine:
             cls_list = cl if isinstance(cl, tuple) and cl and isinstance(cl[0], tuple) else (cl,)
             if isinstance(v, Ref):
                 return [(st, any(c[0] == "class" and s.is_subclass_of(st.cls(v), c[1]) for c in cls_list))]
+            if isinstance(v, (str, SStr, int, SInt, SBV, SBytes, bytes)) and all(isinstance(c, tuple) and c and c[0] == "class" for c in cls_list):
+                return [(st, False)]            # a str / int / bytes value is not an instance of a class defined in the repository
         if name in ("max", "min") and len(args) == 2:
             a, b = args
             if not is_sym(a) and not is_sym(b): return [(st, max(a, b) if name == "max" else min(a, b))]
@@ -708,6 +718,10 @@ class Engine:
             c = z3.simplify(to_bool(args[0])); return [(st, True if z3.is_true(c) else False if z3.is_false(c) else SBool(c))]
         if name == "str" and len(args) == 1:
             return [(st, s.format_value(args[0]))]
+        if name in ("all", "any") and len(args) == 1 and isinstance(args[0], (tuple, list)):
+            parts = [to_bool(x) for x in args[0]]
+            c = z3.simplify((z3.And if name == "all" else z3.Or)(*parts)) if parts else z3.BoolVal(name == "all")
+            return [(st, True if z3.is_true(c) else False if z3.is_false(c) else SBool(c))]
         if name == "hash" and len(args) == 1:
             return [(st, ("hashof", args[0]))]
         raise Unsupported(f"builtin {name} line {node.lineno}")
@@ -914,8 +928,15 @@ class Engine:
                 else:
                     ts = h.type.elts if isinstance(h.type, ast.Tuple) else [h.type]
                     names = [ast.unparse(t) for t in ts]
-                if any(s.exc_matches(val, nm) for nm in names):
-                    if h.name: st1.locals[h.name] = val
+                alts = val.exc if isinstance(val.exc, tuple) else (val.exc,)
+                caught = tuple(a for a in alts if any(s.exc_matches(a, nm) for nm in names))
+                if caught and len(caught) < len(alts):
+                    # some of the possible classes are caught here, others propagate: split the path
+                    rest = tuple(a for a in alts if a not in caught)
+                    st_rest = st1.fork(); outs += s._dispatch_rest(stmt, h, st_rest, Raised(rest if len(rest) > 1 else rest[0], val.info), ctx)
+                    val = Raised(caught if len(caught) > 1 else caught[0], val.info)
+                if caught:
+                    if h.name: st1.locals[h.name] = ("exc", val.exc)       # the caught exception object (a plain value, not a pending raise)
                     saved = st1.locals.get("__handling__"); st1.locals["__handling__"] = val
                     for st2, f2, v2 in s.exec_block(h.body, st1, ctx):
                         if saved is None: st2.locals.pop("__handling__", None)
@@ -924,6 +945,19 @@ class Engine:
                     handled = True; break
             if not handled: outs.append((st1, RAISE, val))
         return outs
+    def _dispatch_rest(s, stmt, h_done, st, val, ctx):
+        """the alternatives not caught by handler h_done are offered to the handlers after it"""
+        hs = stmt.handlers[stmt.handlers.index(h_done) + 1:]
+        for h in hs:
+            ts = [] if h.type is None else (h.type.elts if isinstance(h.type, ast.Tuple) else [h.type])
+            names = ["BaseException"] if h.type is None else [ast.unparse(t) for t in ts]
+            alts = val.exc if isinstance(val.exc, tuple) else (val.exc,)
+            if all(any(s.exc_matches(a, nm) for nm in names) for a in alts):
+                if h.name: st.locals[h.name] = ("exc", val.exc)
+                st.locals["__handling__"] = val
+                return s.exec_block(h.body, st, ctx)
+            if any(any(s.exc_matches(a, nm) for nm in names) for a in alts): raise Unsupported("exception alternatives split across several handlers")
+        return [(st, RAISE, val)]
     def exc_matches(s, exc, name):
         cur = exc.exc if isinstance(exc, Raised) else exc
         seen = 0
